@@ -59,8 +59,9 @@ def check(c):
              and norm(n.targets[0]) == 'stuff[key]'
              and norm(n.value) == 'None']
     c.exactly('C22.persist', 'unset site in clear_broadcast', len(unset), 1)
+    # (the third element is the cancelled setting, however it is built)
     crec = c.find(clr, 'modified_settings.append((point_string, namespace, '
-                  'setting))')
+                  '_))')
     for u in unset:
         ok = any(straight_line(c, u, c.idx.stmt_of(r)) for r in crec)
         c.ob('C22.persist', c.key(u, clr) + ' recorded', ok, c.where(u, clr),
@@ -123,7 +124,14 @@ def check(c):
 
     # ---- expiry
     ex = c.func(BM, 'BroadcastMgr.expire_broadcast')
-    apps = c.find(ex, 'point_strings.append(point_string)')
+    # the points to expire: a loop with append or a comprehension
+    apps = [a.args[0] for a in c.find(
+        ex, 'point_strings.append(point_string)')] + [
+        n.value.elt for n in c.idx.walk(ex.node) if isinstance(n, ast.Assign)
+        and norm(n.targets[0]) == 'point_strings' and isinstance(
+            n.value, ast.ListComp) and norm(n.value.elt) == norm(
+            n.value.generators[0].target)
+        and norm(n.value.generators[0].iter) == 'self.broadcasts']
     c.exactly('C22.expiry', 'expiry candidate append', len(apps), 1)
     for a in apps:
         c.guard('C22.expiry', a, [
